@@ -151,6 +151,8 @@ def main(ck):
 
     run_ix(ck, binp, ok)
     run_wa(ck, binp, ok)
+    if ck.tier == "thorough" or os.environ.get("C14_BB"):
+        run_bb(ck)
 
 
 # ---------------------------------------------------------------------------------------------
@@ -313,3 +315,39 @@ def run_wa(ck, binp, coq_ok):
                     "batches_with_alter_during_routing": sum(1 for c in cases if c["alter_at"] >= 0)}
     ck.cov["rule"] += (" || wa: write batches with timestamps at threshold-1h,-1s,-2ns,-1ns,0,+1ns,+2ns,+1s,.. under the coordinator's "
                        "clock; non-trivial = a batch with both admitted and rejected rows")
+
+
+# ---------------------------------------------------------------------------------------------
+# black box (thorough tier): single-node ts-server of the working tree, retention every 3 s, the scenario of
+# C14-index-outlived-by-shard arranged around the real wall clock; oracle: the in-window point stays queryable and the
+# expired one disappears
+
+def run_bb(ck):
+    srv = ck.go_build_repo("./app/ts-server", "ts-server")
+    binp = ck.go_build("./cmd/c14bb", "c14bb")
+    if not srv or not binp:
+        return
+    port = 21400 + (os.getpid() % 9) * 10
+    conf = os.path.join(ck.repo, "config", "openGemini.singlenode.conf")
+    rc, out = ck.run([binp, srv, conf, str(port), os.path.join(ck.work, "bb")], timeout=600)
+    line = next((l for l in out.splitlines() if l.startswith('{"mode":"bb"')), None)
+    if rc != 0 or not line:
+        ck.broken.append("black-box harness c14bb failed rc=%d: %s" % (rc, out[-400:]))
+        return
+    r = json.loads(line)
+    ck.cov["bb"] = {"facts": r["facts"], "skipped": r.get("skipped"), "log": r["log"], "dirs_before": r["dirs_before"], "dirs_after": r["dirs_after"]}
+    if r.get("skipped"):
+        ck.notes.append("black box skipped: " + r["skipped"])
+        return
+    if r.get("error"):
+        ck.broken.append("black-box set-up problem: " + r["error"])
+        return
+    ck.cov["evaluations"] += 1
+    for msg in r["oracle"]:
+        fa = r["facts"]
+        inside = "p3" in msg and fa.get("sg_end", 0) > fa.get("ig_end", 1 << 62)
+        if inside and ck.match_finding("C14-index-outlived-by-shard"):
+            ck.known_finding("C14-index-outlived-by-shard", "black box (ts-server): " + msg)
+        else:
+            ck.violation({"kind": "direct-oracle", "mode": "bb", "what": msg, "facts": fa, "log": r["log"],
+                          "dirs_before": r["dirs_before"], "dirs_after": r["dirs_after"]})
